@@ -334,3 +334,47 @@ def _is_store_target(f, x):
     while p is not None and p['k'] in ('ArraySubscriptExpr', 'MemberExpr'):
         x, p = p, f.parent_of(p)
     return p is not None and p['k'] == 'BinaryOperator' and p['op'] == '=' and p['c'][0] is x
+
+
+def rf13c(run):
+    """the encoder's element counter must advance on every call of _reduce_dict_add: the decoder counts every literal byte
+    and every reference, so a skipped increment shifts all later back-reference indices"""
+    rule = 'RF13c'
+    run.rule(rule, 'mir-reduce.h encoder: data->curr_num is incremented on every path through _reduce_dict_add (the decoder advances '
+                   'its index for every position; a path that skips the increment desynchronises all later references)')
+    tu = run.tu('mir')
+    f = tu.func('_reduce_dict_add')
+    cfg = f.cfg
+    run.functions_analysed.add(('mir', f.name))
+
+    def inc(x):
+        if x['k'] == 'UnaryOperator' and x['op'] in ('++',):
+            return F.src(F.strip(x['c'][0])).endswith('curr_num')
+        if x['k'] == 'CompoundAssignOperator' and x['op'] == '+=':
+            return F.src(F.strip(x['c'][0])).endswith('curr_num')
+        return False
+    ib = rf_flow.blocks_with(cfg, inc)
+    if not ib:
+        run.ob(rule, ('inc',), False)
+        run.violation(rule, f, 'curr_num increment', '_reduce_dict_add no longer increments data->curr_num', line=f.line)
+        return
+    # every path entry -> exit passes an increment block
+    seen = cfg.reachable_from(cfg.entry, avoid=lambda b: b in ib)
+    ok = cfg.exit not in seen
+    # find an offending return for the message
+    where = None
+    if not ok:
+        for B in cfg.blocks.values():
+            if B.id in seen:
+                for e in B.elems:
+                    if e['k'] == 'ReturnStmt':
+                        where = e['l']
+    run.ob(rule, ('must-pass',), ok, {'function': f.name, 'increment sites': sorted(cfg.blocks[b].elems[0]['l'] for b in ib if cfg.blocks[b].elems),
+                                      'every path passes one': ok})
+    if not ok:
+        run.violation(rule, f, 'path without curr_num increment',
+                      'a path through _reduce_dict_add (return at line %s) does not increment data->curr_num: the encoder\'s element '
+                      'numbering falls behind the decoder\'s and later references decode to the wrong bytes' % where, line=where or f.line)
+    # callers: _reduce_dict_add is called once per consumed position in the encoding loop
+    callers = [g.name for g in tu.func_list for n in g.walk() if n['k'] == 'CallExpr' and n.get('callee') == '_reduce_dict_add']
+    run.ob(rule, ('callers',), bool(callers), {'callers': sorted(set(callers))})
